@@ -4,10 +4,12 @@ from compile_common import GEN_RULE, TRUSTED, stream, strcase_stream
 
 CONFIG = {
     "lean_props": "J5V/Props/C02.lean",
-    "extract": ["compileconsts", "builders"],
+    "extract": ["compileconsts", "builders", "importmap"],
     "streams": [
         stream("skel", {"quick": 960, "thorough": 16000, "search": 1920}, {"quick": 16, "thorough": 16, "search": 16},
-               GEN_RULE + " Op `skel`: compile one package of the bundle; result = canonical skeleton of every generated file (name, package, "
+               GEN_RULE + " In 1/6 of the bundles three packages are appended: two `*.zzfshared.vN` packages that declare the same type name and `zzfuser.v1`, whose file imports one "
+               "by package name and the other by FILE PATH (both orders) and refers to the type through the shared short name (bare / array item / map value: the package import's type — a file "
+               "import registers no short name) and through the file import's full package name (counter skel.gen.file-import-clash). Op `skel`: compile one package of the bundle; result = canonical skeleton of every generated file (name, package, "
                "deps; messages with kind / psm / fields (name, jsonName, number, type, label, proto3_optional, resolved typeName, oneof "
                "index, required, j5 ext kind), nested messages / enums, enum values, services with annotation, methods with input / "
                "output / http rule / annotation). Go-side oracle: independent expected skeleton computed from the abstract package "
